@@ -17,6 +17,23 @@ structure Claimed where
 def lirErr (kind : String) (names : List String := []) (numbers : List Int := []) : Stop :=
   .error { stage := "lir", kind := kind, names := names, numbers := numbers }
 
+/-- `(count, stride, repeated)` of a method (`method.repeat` or one instance, stride 0). -/
+def Method.repTriple (m : Method) : Nat × Int × Bool :=
+  match m.repeat_ with
+  | none => (1, 0, false)
+  | some r => (r.count, r.stride, true)
+
+/-- `device.blocks.iter().find(|b| b.name == *name)` for a block accessor. -/
+def lookupBlock (blocks : List LBlock) (m : Method) : Option LBlock :=
+  blocks.find? (fun b => b.name == m.target.getD "")
+
+/-- One claimed instance of a register / command / buffer accessor: `cur + i * stride` in `i64`. -/
+def leafEntry (name : String) (repeated allow : Bool) (k : MethodKind) (cur stride : Int) (i : Nat) : M Claimed := do
+  let step ← ck ((i : Int) * stride)
+  let address ← ck (cur + step)
+  pure { name := name, repeatIndex := if repeated then some i else none,
+         address := address, allowOverlap := allow, kind := k }
+
 mutual
 /-- `get_block_claimed_addresses`. Sub-blocks are looked up **by name** among all collected blocks
     (`device.blocks.iter().find(|b| b.name == *name)`), so the recursion is not structural: `fuel`
@@ -32,24 +49,23 @@ def claimedOfMethods (n : Names) (blocks : List LBlock) (fuel : Nat) :
   | [], _, _ => pure []
   | m :: ms, offset, stack => do
     let cur ← ck (offset + m.address)
-    let (count, stride, repeated) : Nat × Int × Bool := match m.repeat_ with
-      | none => (1, 0, false)
-      | some r => (r.count, r.stride, true)
-    let here ← match m.kind with
-      | .block => do
-        let target := m.target.getD ""
-        let sub ← match blocks.find? (fun b => b.name == target) with
-          | some b => pure b | none => throw (.panic "block_expect")
-        claimedOfRepeats n blocks fuel sub cur stride (n.collision target) stack count 0
-      | k =>
-        (List.range count).mapM fun (i : Nat) => do
-          let step ← ck ((i : Int) * stride)
-          let address ← ck (cur + step)
-          pure { name := "::".intercalate (stack ++ [n.collision m.name]),
-                 repeatIndex := if repeated then some i else none,
-                 address := address, allowOverlap := m.allowAddressOverlap, kind := k }
+    let here ← claimedHere n blocks fuel m cur stack
     let rest ← claimedOfMethods n blocks fuel ms offset stack
     pure (here ++ rest)
+
+/-- the instances of one method: a block accessor expands its target block once per index, any
+    other accessor claims one address per index -/
+def claimedHere (n : Names) (blocks : List LBlock) (fuel : Nat) (m : Method) (cur : Int) (stack : List String) :
+    M (List Claimed) :=
+  match m.kind with
+  | .block =>
+    match lookupBlock blocks m with
+    | none => throw (.panic "block_expect")
+    | some sub =>
+      claimedOfRepeats n blocks fuel sub cur m.repTriple.2.1 (n.collision (m.target.getD "")) stack m.repTriple.1 0
+  | k =>
+    (List.range m.repTriple.1).mapM
+      (leafEntry ("::".intercalate (stack ++ [n.collision m.name])) m.repTriple.2.2 m.allowAddressOverlap k cur m.repTriple.2.1)
 
 def claimedOfRepeats (n : Names) (blocks : List LBlock) (fuel : Nat) (sub : LBlock) (cur stride : Int)
     (display : String) (stack : List String) : Nat → Nat → M (List Claimed)
